@@ -162,7 +162,7 @@ PROPS["C01"] = {
             "covered indices; case = honest aggregate or one structural mutation of it (JSON re-encoding), or a batch of 1-3 (4 thorough) "
             "members with one bad member at each position; all cases non-trivial; distinct request lines",
     "trivial_tags": [],
-    "trusted_base": ["rustc/cargo; harness bin c01; blst; serde_json", "random-oracle assumption for clause (6) (individual validity from the aggregate check)"],
+    "trusted_base": ["rustc/cargo; harness bin c01; blst; serde_json", "random-oracle assumption for clause (6) (individual validity from the aggregate check) and for the per-member weights of the batch check (after fix b85be06a5; the model takes the conjunction of the members' aggregate bits)"],
     "assumptions": ["num-integer backend; default features (future_snark off)"],
     "goals_not_proved": ["clause (6) individually: the deterministic core (C01_agg_bad_coeff_unique) is proved, the probabilistic step over the hash-derived coefficients is an assumption; S checks each signature directly on every accepted case",
                          "CBOR / legacy byte re-encodings of aggregates are exercised under C05, not here"],
